@@ -123,6 +123,21 @@ def run (args : List String) : String :=
           | .ok b => if keyClash b then "nondet" else "ok " ++ render r ++ " back " ++ render b
       | _, _, _ => "bad-op"
     | _ => "bad-op"
+  | "convre" :: rest =>
+    -- source type | target type | value 1 | value 2 : the same destination is converted into twice (types
+    -- without maps); the second conversion gives what a fresh destination gives, value 1 does not matter
+    match splitBar rest with
+    | [st, tt, _, vt] =>
+      match parseType st, parseType tt, parseVal vt with
+      | some (s, []), some (t, []), some (v, []) =>
+        match convert nativeOps t v with
+        | .error _ => "err"
+        | .ok r =>
+          match convert nativeOps s r with
+          | .error _ => "ok " ++ render r ++ " back err"
+          | .ok b => "ok " ++ render r ++ " back " ++ render b
+      | _, _, _ => "bad-op"
+    | _ => "bad-op"
   | _ => "bad-op"
 
 end QiVerif.Driver.C20
